@@ -19,29 +19,29 @@ Inductive pg_sop : Type :=
 
 Definition pg_lists := (list Z * list Z)%type.   (* document A, document B *)
 
-Definition sp_sel (s : pg_lists) (d : bool) : list Z := if d then snd s else fst s.
-Definition sp_upd (s : pg_lists) (d : bool) (l : list Z) : pg_lists := if d then (fst s, l) else (l, snd s).
+Definition pgsp_sel (s : pg_lists) (d : bool) : list Z := if d then snd s else fst s.
+Definition pgsp_upd (s : pg_lists) (d : bool) (l : list Z) : pg_lists := if d then (fst s, l) else (l, snd s).
 
-Definition sp_insert (l : list Z) (pos : nat) (m : Z) : list Z := firstn pos l ++ m :: skipn pos l.
-Definition sp_remove (l : list Z) (pos : nat) : list Z := firstn pos l ++ skipn (S pos) l.
-Definition sp_set (l : list Z) (pos : nat) (m : Z) : list Z := firstn pos l ++ m :: skipn (S pos) l.
+Definition pgsp_insert (l : list Z) (pos : nat) (m : Z) : list Z := firstn pos l ++ m :: skipn pos l.
+Definition pgsp_remove (l : list Z) (pos : nat) : list Z := firstn pos l ++ skipn (S pos) l.
+Definition pgsp_set (l : list Z) (pos : nat) (m : Z) : list Z := firstn pos l ++ m :: skipn (S pos) l.
 
 (* result: the new lists, and whether the call has to raise *)
 Definition pg_spec_step (s : pg_lists) (o : pg_sop) : pg_lists * bool :=
   match o with
   | SpInsert d pos m =>
-      let l := sp_sel s d in
-      if Nat.leb pos (length l) then (sp_upd s d (sp_insert l pos m), false) else (s, true)
+      let l := pgsp_sel s d in
+      if Nat.leb pos (length l) then (pgsp_upd s d (pgsp_insert l pos m), false) else (s, true)
   | SpRemove d pos =>
-      let l := sp_sel s d in
-      if Nat.ltb pos (length l) then (sp_upd s d (sp_remove l pos), false) else (s, true)
+      let l := pgsp_sel s d in
+      if Nat.ltb pos (length l) then (pgsp_upd s d (pgsp_remove l pos), false) else (s, true)
   | SpSet d pos m =>
-      let l := sp_sel s d in
-      if Nat.ltb pos (length l) then (sp_upd s d (sp_set l pos m), false) else (s, true)
+      let l := pgsp_sel s d in
+      if Nat.ltb pos (length l) then (pgsp_upd s d (pgsp_set l pos m), false) else (s, true)
   | SpSwap d i j =>
-      let l := sp_sel s d in
+      let l := pgsp_sel s d in
       if Nat.ltb i (length l) && Nat.ltb j (length l)
-      then (sp_upd s d (sp_set (sp_set l i (nth j l 0%Z)) j (nth i l 0%Z)), false)
+      then (pgsp_upd s d (pgsp_set (pgsp_set l i (nth j l 0%Z)) j (nth i l 0%Z)), false)
       else (s, true)
   | SpNop => (s, false)
   | SpInvalid => (s, true)
